@@ -15,6 +15,7 @@ package c07
 import (
 	"bytes"
 	"crypto/sha256"
+	"errors"
 	"encoding/hex"
 	"encoding/json"
 	"fmt"
@@ -22,6 +23,7 @@ import (
 	"sort"
 	"strings"
 	"sync"
+	"time"
 
 	"seehuhn.de/go/membudget"
 	"seehuhn.de/go/pdf"
@@ -149,8 +151,45 @@ func (j *job) filter() pdf.Filter {
 	panic("c07: unknown format " + j.Fmt)
 }
 
+// watchdog: a codec of the library that does not come back (an endless loop
+// on some input) must not hang the check: the call is abandoned after
+// hangAfter and reported as an error of the library (the record is then
+// rejected by Trace_Codec: err = 1).
+const hangAfter = 60 * time.Second
+
+var errHang = errors.New("no result within 60 s (the codec does not terminate)")
+
+func withWatchdog(f func() ([]byte, error)) ([]byte, error) {
+	type res struct {
+		b   []byte
+		err error
+	}
+	done := make(chan res, 1)
+	go func() {
+		b, err := f()
+		done <- res{b, err}
+	}()
+	t := time.NewTimer(hangAfter)
+	defer t.Stop()
+	select {
+	case r := <-done:
+		return r.b, r.err
+	case <-t.C:
+		return nil, errHang
+	}
+}
+
 // libEncode runs the library's encoder.
-func libEncode(f pdf.Filter, data []byte) (enc []byte, err error) {
+func libEncode(f pdf.Filter, data []byte) ([]byte, error) {
+	return withWatchdog(func() ([]byte, error) { return libEncode1(f, data) })
+}
+
+// libDecode runs the library's decoder, rebuilt from name and dictionary.
+func libDecode(f pdf.Filter, enc []byte) ([]byte, error) {
+	return withWatchdog(func() ([]byte, error) { return libDecode1(f, enc) })
+}
+
+func libEncode1(f pdf.Filter, data []byte) (enc []byte, err error) {
 	defer func() {
 		if p := recover(); p != nil {
 			err = fmt.Errorf("panic: %v", p)
@@ -170,8 +209,7 @@ func libEncode(f pdf.Filter, data []byte) (enc []byte, err error) {
 	return buf.Bytes(), nil
 }
 
-// libDecode runs the library's decoder, rebuilt from name and dictionary.
-func libDecode(f pdf.Filter, enc []byte) (out []byte, err error) {
+func libDecode1(f pdf.Filter, enc []byte) (out []byte, err error) {
 	defer func() {
 		if p := recover(); p != nil {
 			err = fmt.Errorf("panic: %v", p)
